@@ -91,12 +91,19 @@ func (h *peChecksum) Write(d []byte) (int, error) {
 		copy(d2, d)
 		d = d2
 	}
+	// the 4-byte checksum field is skipped as two 16-bit words; it may start
+	// exactly at the end of this write, or straddle it (then -2 is carried:
+	// the second word is the first word of the next write)
 	ckpos := -1
-	if h.cksumPos > n {
+	if h.cksumPos >= n {
 		h.cksumPos -= n
-	} else if h.cksumPos >= 0 {
+	} else if h.cksumPos >= 0 || h.cksumPos == -2 {
 		ckpos = h.cksumPos
-		h.cksumPos = -1
+		if ckpos+4 > n {
+			h.cksumPos = ckpos - n
+		} else {
+			h.cksumPos = -1
+		}
 	}
 	sum := h.sum
 	for i := 0; i < n; i += 2 {
